@@ -36,6 +36,8 @@ def histories(n: int, families: list) -> list:
 			out.append((f'edit m{x} within the same second', [R, ('edit', x, 1, 0.25), R, ('edit', x, 2, 0.25), R]))
 		if 'backwards' in families:
 			out.append((f'edit m{x} with an older mtime', [R, ('edit', x, 1, -1000.5), R]))
+		if 'mtime-reuse' in families:
+			out.append((f'edit m{x} twice, the second time back to the first mtime', [R, ('edit', x, 1, 7.25), R, ('edit', x, 2, -7.25), R]))
 		if 'first-disabled' in families:
 			out.append((f'disabled first, edit m{x}', [RD, ('edit', x, 1, 7.25), R, R]))
 		for y in range(n):
